@@ -103,15 +103,18 @@ func (c ConditionFunction) Evaluate(a interface{}, b interface{}) (bool, error) 
 	}
 	switch c {
 	case ConditionEqual:
-		return reflect.DeepEqual(a, b), nil
+		return valuesEqual(x, y), nil
 	case ConditionNotEqual:
-		return !reflect.DeepEqual(a, b), nil
+		return !valuesEqual(x, y), nil
 	case ConditionIncludes:
 		switch x.Kind() {
 		case reflect.Slice:
 			return sliceContains(x, y), nil
 		case reflect.Map:
 			return mapContains(x, y), nil
+		case reflect.Ptr:
+			// an optional value is a set with at most one element
+			return y.IsNil() || valuesEqual(x, y), nil
 		case reflect.Int, reflect.Float64, reflect.Bool, reflect.String:
 			return reflect.DeepEqual(a, b), nil
 		default:
@@ -120,9 +123,12 @@ func (c ConditionFunction) Evaluate(a interface{}, b interface{}) (bool, error) 
 	case ConditionExcludes:
 		switch x.Kind() {
 		case reflect.Slice:
-			return !sliceContains(x, y), nil
+			return !sliceContainsAny(x, y), nil
 		case reflect.Map:
-			return !mapContains(x, y), nil
+			return !mapContainsAny(x, y), nil
+		case reflect.Ptr:
+			// an optional value is a set with at most one element
+			return y.IsNil() || !valuesEqual(x, y), nil
 		case reflect.Int, reflect.Float64, reflect.Bool, reflect.String:
 			return !reflect.DeepEqual(a, b), nil
 		default:
@@ -173,6 +179,49 @@ func (c ConditionFunction) Evaluate(a interface{}, b interface{}) (bool, error) 
 	}
 	// we should never get here
 	return false, fmt.Errorf("unreachable condition")
+}
+
+// valuesEqual compares two values of the same kind as RFC7047 values: sets are
+// equal if they have the same elements in whatever order, and there is no
+// difference between a nil and an empty set or map.
+func valuesEqual(x, y reflect.Value) bool {
+	switch x.Kind() {
+	case reflect.Slice:
+		return x.Len() == y.Len() && sliceContains(x, y) && sliceContains(y, x)
+	case reflect.Map:
+		return x.Len() == y.Len() && mapContains(x, y)
+	case reflect.Ptr:
+		if x.IsNil() || y.IsNil() {
+			return x.IsNil() && y.IsNil()
+		}
+		return reflect.DeepEqual(x.Elem().Interface(), y.Elem().Interface())
+	case reflect.Invalid:
+		return !y.IsValid()
+	}
+	return reflect.DeepEqual(x.Interface(), y.Interface())
+}
+
+// sliceContainsAny returns whether any of the elements of y is in x
+func sliceContainsAny(x, y reflect.Value) bool {
+	for i := 0; i < y.Len(); i++ {
+		if sliceContains(x, y.Slice(i, i+1)) {
+			return true
+		}
+	}
+	return false
+}
+
+// mapContainsAny returns whether any of the key-value pairs of y is in x
+func mapContainsAny(x, y reflect.Value) bool {
+	iter := y.MapRange()
+	for iter.Next() {
+		single := reflect.MakeMap(y.Type())
+		single.SetMapIndex(iter.Key(), iter.Value())
+		if mapContains(x, single) {
+			return true
+		}
+	}
+	return false
 }
 
 func sliceContains(x, y reflect.Value) bool {
